@@ -401,7 +401,7 @@ def huge_case(ns, res, nrows, keys, salt, with_js):
             seen.add((r[0], r[2]))
             dd.append([r[0], r[2]])
     expectations.append(('select distinct a1, a3 order by a1 desc', dd))
-    expectations.append(('select a1, a2 order by a3, a1 desc', [r[:2] for r in sorted(A, key=lambda r: (r[2], r[0]))[::-1]]))
+    expectations.append(('select a1, a2 order by a3, a1 dEsC', [r[:2] for r in sorted(A, key=lambda r: (r[2], r[0]))[::-1]]))
     for query, exp in expectations:
         out, warnings = [], []
         try:
@@ -461,7 +461,7 @@ def typed_leg(ns, res, rng, count):
         R = [[cell(v) for v in r] for r in rows]
         shapes = [
             ('select a1, a3 order by a1', lambda: [[r[0], r[2]] for r in sorted(R, key=lambda r: r[0])]),
-            ('select a1, a2 order by a1 desc', lambda: [[r[0], r[1]] for r in reversed(sorted(R, key=lambda r: r[0]))]),
+            ('select a1, a2 order by a1 Desc', lambda: [[r[0], r[1]] for r in reversed(sorted(R, key=lambda r: r[0]))]),
             ('select a2, NR order by a2', lambda: [[r[1], i + 1] for i, r in sorted(enumerate(R), key=lambda ir: ir[1][1])]),
             ('select a3, a1 order by a3, a1', lambda: [[r[2], r[0]] for r in sorted(R, key=lambda r: (r[2], r[0]))]),
             ('select distinct a1', lambda: [[v] for v in dict.fromkeys(r[0] for r in R)]),
